@@ -791,7 +791,11 @@ class BaseLoss(object):
         for i in range(num_time - 1):
             FF = ode_utils.vecToMatFF(solution_all[i,base_index_hess::], nS, nP)
             E = np.zeros(nS)
-            E[self._stateIndex] += -diff_loss[i]
+            # second derivative of the cost: sum_i [S_i' L''_i S_i + sum_s L'_is d2x_is/dtheta2].
+            # The residual-curvature term enters with a plus sign and L' is
+            # diff_loss times the weight (the factor sens_to_grad puts on the
+            # sensitivities)
+            E[self._stateIndex] += diff_loss[i]*self._weight[i]
             H += scipy.sparse.kron(E, scipy.sparse.eye(nP)).dot(FF)
 
         # just the J^{\top}J part of the Hessian (which is guarantee to be PSD)
